@@ -131,7 +131,7 @@ fn go2<T: Scalar, const D: usize>(h: &C06Shortcut, out: &mut Outcome<T>) {
     let g = h.entry.ograph();
     let routing = routings(&g, 1).remove(0);
     let kin = rat_kin::<T>(&g, D);
-    let run = run_sample::<T, D>(&h.entry, &routing, &kin, &settings(false, false, None), None, out);
+    let run = run_sample::<T, D>(&h.entry, &routing, &kin, &settings(true, false, None), None, out);
     if T::SYMBOLIC && run.res.is_ok() {
         let mut used: Vec<String> = vec![];
         for vs in T::atom_vars() {
@@ -147,6 +147,34 @@ fn go2<T: Scalar, const D: usize>(h: &C06Shortcut, out: &mut Outcome<T>) {
         let want: Vec<String> = (0..g.ne() - 1).map(|k| format!("x{}", 2 * k)).collect();
         if used != want {
             out.structural.push(format!("edge choices are decided by coordinates {:?}, expected {:?} (one per removal except the last)", used, want));
+        }
+    }
+    // the removal the sampler actually performs follows the tropical edge distribution: in the sector read off the
+    // logged Feynman parameters, the coordinate that chose the k-th removed edge lies between the oracle's exact
+    // cumulative sums of the subgraph that was current at that step
+    if let Some(xt) = run.logged("momtrop_feynman_parameter_no_rescaling") {
+        let order = T::removal_order(xt);
+        let j = oracle::j_table(&g, D);
+        let mut mask = g.full();
+        for (step, &edge) in order.iter().enumerate() {
+            if mask.count_ones() >= 2 {
+                let cdf = oracle::edge_cdf(&g, D, &j, mask);
+                match cdf.iter().position(|(e, _)| *e == edge) {
+                    None => out.prove(format!("step {}: removed edge {} belongs to the current subgraph", step, edge), T::rat(1, 1), Rel::Eq, T::rat(0, 1)),
+                    Some(k) => {
+                        let u = run.x[2 * step];
+                        let hi = cdf[k].1.to_f64().unwrap();
+                        let lo = if k == 0 { 0.0 } else { cdf[k - 1].1.to_f64().unwrap() };
+                        if k + 1 < cdf.len() {
+                            out.prove(format!("step {}: edge {} removed only for u <= c_k + 1e-12", step, edge), u, Rel::Le, T::lit(hi + 1e-12));
+                        }
+                        if k > 0 {
+                            out.prove(format!("step {}: edge {} removed only for u >= c_(k-1) - 1e-12", step, edge), T::lit(lo - 1e-12), Rel::Le, u);
+                        }
+                    }
+                }
+            }
+            mask &= !(1u64 << edge);
         }
     }
     out.prove("placeholder", T::rat(0, 1), Rel::Eq, T::rat(0, 1));
